@@ -426,7 +426,20 @@ func randomHistories(c *core.Ctx) {
 		var steps []ss.Step
 		on := true
 		for i := 0; i < 3+c.Rng.Intn(8); i++ {
-			switch c.Rng.Intn(6) {
+			switch c.Rng.Intn(8) {
+			case 6: // hand-off of one end (refused or not: the model says which)
+				steps = append(steps, ss.Step{Kind: "handoff", WhoA: c.Rng.Intn(2) == 0})
+			case 7: // the key is installed again now and then; encryption is on afterwards
+				if c.Rng.Intn(3) == 0 {
+					rk := ss.Step{Kind: "rekey"}
+					if c.Rng.Intn(2) == 0 {
+						rk.Key = key2
+					}
+					steps = append(steps, rk)
+					on = true
+				} else if !c.Quick() && c.Rng.Intn(4) == 0 {
+					steps = append(steps, ss.Step{Kind: "phase", ASends: c.Rng.Intn(2) == 0, SOps: direct(1<<20 + 1 + c.Rng.Intn(40)).SOps()})
+				}
 			case 0:
 				on = !on
 				steps = append(steps, ss.Step{Kind: "crypto", WhoA: true, On: on}, ss.Step{Kind: "crypto", WhoA: false, On: on})
